@@ -68,6 +68,17 @@ def pinned_grid(ctx):
             p, q = pq
             pinned(ctx, 'power(%d/%d)' % pq, lambda x, p=p, q=q: rso.power(x[0:2], p, q).sum() if False else rso.power(x[0], p, q),
                    float(abs(x0[0]) ** (p / q)), x0=x0)
+        for a, b in rats:
+            pinned(ctx, 'pnorm_exc(%d/%d)' % (a, b), lambda x, a=a, b=b: rso.pnorm(x, (a, b), 'exc'), float(np.sum(np.abs(x0) ** (a / b)) ** (b / a)), x0=x0)
+        for p in degs[:2]:
+            pinned(ctx, 'pnorm_exc(%d)' % p, lambda x, p=p: rso.pnorm(x, p, 'exc'), float(np.sum(np.abs(x0) ** p) ** (1.0 / p)), x0=x0)
+        # element-wise powers with array exponents, entries with p == q (plain |x|) mixed with p > q, negative arguments
+        # (`power(x, p, q) <= t` with scalar t pins t at the largest entry)
+        for pv, qv, xv in [([1, 3, 2], [1, 1, 1], [-9.0, 2.0, 0.5]), ([5, 2, 3], [2, 2, 3], [0.7, -3.0, -2.5]),
+                           ([2, 1, 3], [1, 1, 2], [1.0, -4.0, 1.5]), ([3, 3, 2], [1, 3, 1], [1.0, -2.0, 1.0])]:
+            ex = np.array(pv, dtype=float) / np.array(qv, dtype=float)
+            pinned(ctx, 'power_arr(%s/%s)' % (pv, qv), lambda x, pv=pv, qv=qv: rso.power(x, np.array(pv), np.array(qv)),
+                   float(np.max(np.abs(np.array(xv)) ** ex)), x0=np.array(xv))
         xp = np.abs(x0) + 0.5
         for beta in ([[1, 1, 1], [2, 1, 1], [3, 1, 2], [1, 5, 1]] if ctx.quick else [list(b) for b in itertools.product(range(1, 6), repeat=3)][::7]):
             pinned(ctx, 'gmean(%s)' % beta, lambda x, beta=beta: rso.gmean(x, beta),
